@@ -11,7 +11,8 @@
 (*                                                                            *)
 (* trace.ndjson, several sessions per file:                                   *)
 (*   reset  msgs = the messages the application wrote in this session         *)
-(*          [id, type, sid, ts, len, ctl ("scs" for Set Chunk Size), scs]     *)
+(*          [id, type, sid, ts, len, ctl ("scs" for Set Chunk Size), scs];    *)
+(*          hint = a diagnosis aid of the recorder, used by Why only          *)
 (*   chunk  one chunk as tokenised from the raw bytes by an independent       *)
 (*          tokenizer that knows only the grammar of section 5.3.1:           *)
 (*          fmt, cid, form (bytes of the basic header), tsf (24-bit timestamp *)
@@ -149,7 +150,9 @@ HighWater == IF l > TLCGet(1)
 \* why the record at the high-water mark is not a step: a name for the class of deviation (diagnosis only -
 \* acceptance is decided by TraceNext above)
 Why(S, r) ==
-  IF r.ev = "junk" THEN "bytes-not-a-chunk"
+  \* the recorder's hint (diagnosis only): the bytes frame into the written messages if the chunk size never changes
+  IF S.sess # 0 /\ TraceLog[S.sess].hint = "fixed-chunk-size-128" THEN "set-chunk-size-not-followed"
+  ELSE IF r.ev = "junk" THEN "bytes-not-a-chunk"
   ELSE IF r.ev = "reset" THEN "session-not-ended"
   ELSE IF r.ev = "end" THEN
        (IF S.sess = 0 THEN "end-outside-session"
